@@ -11,10 +11,10 @@ import (
 
 func init() {
 	register(&ruleSet{
-		id:    "C17",
-		title: "print renders every value in one well-defined, terminating format",
-		run:   runC17,
-		decided: "the print statement's write skeleton (one space written exactly before every argument but the first — decided by the argument's index —, one newline after the last, zero arguments print $, arguments rendered at top level without quotes, evaluated without copying); every number is rendered by strconv.FormatFloat(x, 'f', -1, 64) applied to the payload itself and no float reaches a fmt verb; the container renderer's write sequence ([, ', ' before every element but the first, ], {\"k\": v} with sorted keys) with nested values rendered quoted, the path-based cycle guard on every descent returning <circular reference> before descending; output goes unbuffered to the caller's writer.",
+		id:         "C17",
+		title:      "print renders every value in one well-defined, terminating format",
+		run:        runC17,
+		decided:    "the print statement's write skeleton (one space written exactly before every argument but the first — decided by the argument's index —, one newline after the last, zero arguments print $, arguments rendered at top level without quotes, evaluated without copying); every number is rendered by strconv.FormatFloat(x, 'f', -1, 64) applied to the payload itself and no float reaches a fmt verb; the container renderer's write sequence ([, ', ' before every element but the first, ], {\"k\": v} with sorted keys) with nested values rendered quoted, the path-based cycle guard on every descent returning <circular reference> before descending; output goes unbuffered to the caller's writer.",
 		notDecided: "exactness of the identity test for arrays that share backing storage without being the same array (sharing without a cycle can be reported as circular after popfirst: observation in DESIGN.md), re-readability of strings that need escaping.",
 	})
 }
@@ -68,11 +68,11 @@ func runC17(c *Ctx) {
 		writes = append(writes, w{abbrevPrint(rc.Text), g, rc.Call})
 	}
 	want := map[string][]string{
-		`fmt.Fprintln(e.stdout, [PrettyString(&e.ruleRoot.Value, false)][:])`: {"len(A) == 0", "Aerr == nil"},
-		`fmt.Fprint(e.stdout, [" "][:])`:                                      {"i@A > 0", "i@A < len(A)"},
-		`fmt.Fprint(e.stdout, ["null"][:])`:                                   {"A[i@A] == nil"},
+		`fmt.Fprintln(e.stdout, [PrettyString(&e.ruleRoot.Value, false)][:])`:  {"len(A) == 0", "Aerr == nil"},
+		`fmt.Fprint(e.stdout, [" "][:])`:                                       {"i@A > 0", "i@A < len(A)"},
+		`fmt.Fprint(e.stdout, ["null"][:])`:                                    {"A[i@A] == nil"},
 		`fmt.Fprintf(e.stdout, "%s", [PrettyString(&A[i@A].Value, false)][:])`: {"A[i@A] != nil", "i@A < len(A)"},
-		`fmt.Fprint(e.stdout, ["\n"][:])`:                                     {"i@A >= len(A)", "len(A) != 0"},
+		`fmt.Fprint(e.stdout, ["\n"][:])`:                                      {"i@A >= len(A)", "len(A) != 0"},
 	}
 	seen := map[string]bool{}
 	for _, wr := range writes {
@@ -195,11 +195,11 @@ func runC17(c *Ctx) {
 		"WriteString(prettyStringInteral(&v.Array[i@v.Array].Value, append(rootValues, [v][:]), true, true))": {"i@v.Array < len(v.Array)"},
 		"WriteByte(93)":       {"i@v.Array >= len(v.Array)"},
 		"WriteByte(123)":      {"v.Tag == ValueObj"},
-		`WriteString(", ")#o`: {"φindex > 0", "v.Tag == ValueObj"},
+		`WriteString(", ")#o`: {"φint0 > 0", "v.Tag == ValueObj"},
 		`WriteString((("\"" + lang.sortedKeys(*v.Obj)[i@lang.sortedKeys(*v.Obj)]) + "\""))`: {"v.Tag == ValueObj"},
-		`WriteString(": ")`:   {"v.Tag == ValueObj"},
+		`WriteString(": ")`: {"v.Tag == ValueObj"},
 		"WriteString(prettyStringInteral(&*v.Obj[lang.sortedKeys(*v.Obj)[i@lang.sortedKeys(*v.Obj)]].Value, append(rootValues, [v][:]), true, true))": {"v.Tag == ValueObj"},
-		"WriteByte(125)":      {"i@lang.sortedKeys(*v.Obj) >= len(lang.sortedKeys(*v.Obj))"},
+		"WriteByte(125)": {"i@lang.sortedKeys(*v.Obj) >= len(lang.sortedKeys(*v.Obj))"},
 	}
 	seenW := map[string]bool{}
 	r := &renderer{p: p, noExpand: true, depth: 2}
@@ -243,8 +243,8 @@ func runC17(c *Ctx) {
 	// the member counter starts at 0 and is incremented once per member
 	idxOK := false
 	allInstrs(pr, func(in ssa.Instruction) {
-		if phi, ok := in.(*ssa.Phi); ok && phi.Comment == "index" && loopCarried(phi) {
-			if p.Render(phi) == "φindex⟨(φindex + 1) | 0⟩" {
+		if phi, ok := in.(*ssa.Phi); ok && loopCarried(phi) {
+			if p.Render(phi) == "φint0⟨(φint0 + 1) | 0⟩" {
 				idxOK = true
 			}
 		}
